@@ -4,6 +4,6 @@ cd /verif
 for d in seeded/*/; do
   id=$(basename $d)
   prop=$(python3 -c "import json;print(json.load(open('$d/meta.json')).get('property','$id')[:3])" 2>/dev/null || echo $id)
-  r=$(./tools/run_seed.sh $id $prop 2>&1 | head -1)
+  r=$(./tools/${RUNNER:-run_seed_wt.sh} $id $prop 2>&1 | grep "^check\|PATCH" | head -1)
   echo "$id | $prop | $r"
 done
